@@ -177,6 +177,25 @@ def run_case(ctx, i, rng):
                             order_ = [pin_] + [q_ for q_ in p_.pins if q_ is not pin_]
                             p_.pins = order_
                         ctx.count("bus_ports_reordered_after_instancing")
+    if i % 6 == 3:
+        # cell names are unique per LIBRARY only, and need not exist: two hierarchical cells below the top that carry the same name
+        # (in two libraries), or no name at all
+        hier_ = [d_ for l_ in n.libraries for d_ in l_.definitions if not elab_is_leaf(d_) and d_.references and d_ is not n.top_instance.reference]
+        if len(hier_) >= 2:
+            a_, b_ = rng.sample(hier_, 2)
+            try:
+                if a_.library is not b_.library and a_.name and rng.random() < 0.6:
+                    if "EDIF.identifier" in b_:
+                        b_.pop("EDIF.identifier")
+                    b_.name = a_.name
+                    ctx.count("hierarchical_cells_sharing_a_name_across_libraries")
+                else:
+                    for d_ in (a_, b_):
+                        if d_.name is not None:
+                            del d_.name
+                    ctx.count("hierarchical_cells_without_a_name", 2)
+            except ValueError:
+                pass
     if i % 7 == 4 or i % 11 == 6:
         # a hierarchical cell turned into a black box AFTER it was looked at (uniquify asked whether it is a leaf): its contents
         # are taken out with the bulk calls, its ports stay
